@@ -581,7 +581,56 @@ def run_witness(w):
             return {"buf": st["buf"], "cur": st["cur"]["value"], "mode": st["mode"]}
         a, b = fin(w["keys_a"]), fin(w["keys_b"])
         return (a == b), "%s vs %s" % (canon(a)[:120], canon(b)[:120])
+    if op == "session_wf":
+        # a key history after which the between-commands invariants of C09 must hold; passes when they do
+        x = hook_server_call({"op": "session", "text": w["text"], "cursor": 0, "keep_mode": True, "steps": [["move", k] for k in w["steps"]]})
+        if "steps" not in x:
+            return False, "crash"
+        st = x["steps"][-1]["after"]
+        bad = wf_failures(st)
+        if w.get("classes"):
+            bad = [b for b in bad if b[0] in w["classes"]]
+        return (not bad), ",".join(b[0] for b in bad)
     return True, "unknown witness op (not run)"
+
+
+def wf_failures(st):
+    """C09's between-commands invariants read directly off a state dump: [(class, description)]."""
+    out = []
+    buf, fresh = st["buf"], st["fresh"]
+    gs = graphemes_of(buf, fresh)
+    n = len(gs)
+    cur = st["cur"]
+    v, excl = cur["value"], cur["exclusive"]
+    mode = st["mode"]
+    if cur["max"] != n:
+        out.append(("clamp.max_not_len", "cursor bound %d but the text has %d graphemes" % (cur["max"], n)))
+    if v > (max(n - 1, 0) if excl else n):
+        out.append(("clamp.cursor_over_bound", "cursor %d over its bound (max %d, exclusive %s)" % (v, cur["max"], excl)))
+    if st["cache"] is not None and st["cache"] != fresh:
+        out.append(("cache.stale", "cached grapheme offsets differ from the text's"))
+    if mode in ("Normal", "Visual", "Replace") and n > 0 and v >= n:
+        out.append(("%s.cursor_at_end" % mode.lower(), "%s mode with the cursor at the end of a non-empty text (%d of %d)" % (mode, v, n)))
+    if mode in ("Normal",) and v < n and gs[v] == "\n" and v > 0 and gs[v - 1] != "\n":
+        out.append(("normal.on_terminator", "normal mode with the cursor on the terminator of a non-empty line"))
+    sr, sm = st.get("sel_range"), st.get("sel_mode")
+    if sr and sm:
+        m = re.match(r"OneDim\(\((\d+), (\d+)\)\)", sr)
+        if m:
+            s, e = int(m.group(1)), int(m.group(2))
+            if s > e:
+                out.append(("selection.reversed", "selection %s reversed" % sr))
+            if e > n:
+                out.append(("selection.outside", "selection %s outside the text (%d graphemes)" % (sr, n)))
+            if not (s <= v <= e):
+                kind = "visual_line" if sm.startswith("Line") else "visual_char"
+                out.append(("%s.selection_excludes_cursor" % kind, "selection %s does not contain the cursor %d" % (sr, v)))
+        else:
+            for a, b in re.findall(r"\((\d+), (\d+)\)", sr):
+                if int(a) > int(b) or int(b) > n:
+                    out.append(("selection.block_outside", "block window (%s, %s) outside the text (%d graphemes)" % (a, b, n)))
+                    break
+    return out
 
 
 def shrink_list(items, fails, max_steps=200):
